@@ -1194,7 +1194,7 @@ func (c15) Gen(rng *rand.Rand, tier string, emit func(string)) {
 		}
 	}
 	// ---- q-gram bound, exhaustive on short words: every A of length <= 4 (quick) against every B of length <= 5;
-	// thorough: every A of length 6 against every B of length <= 6 and a sample of length 7 against length <= 7
+	// thorough: every A of length <= 5 against every B of length <= 6 (partitioned over the seeds), samples of length 6, 7
 	enumA := func(l int, f func([]byte)) {
 		b := make([]byte, l)
 		var rec func(i int)
@@ -1220,7 +1220,7 @@ func (c15) Gen(rng *rand.Rand, tier string, emit func(string)) {
 	} else {
 		part := c15SeedPart()
 		k := 0
-		for l := 0; l <= 6; l++ {
+		for l := 0; l <= 5; l++ {
 			enumA(l, func(a []byte) {
 				if k%8 == part {
 					emit(fmt.Sprintf("qg %s 6", hx(a)))
@@ -1229,6 +1229,9 @@ func (c15) Gen(rng *rand.Rand, tier string, emit func(string)) {
 			})
 		}
 		for i := 0; i < 40; i++ {
+			emit(fmt.Sprintf("qg %s 6", hx(g.word(6, "acgt"))))
+		}
+		for i := 0; i < 8; i++ {
 			emit(fmt.Sprintf("qg %s 7", hx(g.word(7, "acgt"))))
 		}
 		// every query over {a,c} of length 8..10 against one fixed reference set over {a,c} (search exhaustive in the query)
